@@ -640,7 +640,7 @@ func genC06Genuine(rt *rapid.T) c06Case {
 // over, or repeat the message.
 func TestC06_Sequences(t *testing.T) {
 	rec := recorder("C06")
-	rec.AddRule("sequences: 2..5 messages presented in order to the same validator objects in one process (pure validators, access-node handler, and for a quarter of the sequences a keyper node's combined validator over pgfake); the first message is genuine (2/3) or a case of the single-message generator; follow-ups keep signer list and signature bytes and change one field of the presented tuple, return to the signed tuple, or repeat; oracle per step: the same reference predicate, independent of the steps before; non-trivial (sequences) = an accepted message is followed by one that differs in one field, or the reverse")
+	rec.AddRule("sequences: 2..5 messages presented in order to the same validator objects in one process (pure validators, access-node handler, and for a quarter of the sequences a keyper node's combined validator over pgfake); the first message is genuine (2/3) or a case of the single-message generator; follow-ups keep signer list and signature bytes and change one field of the presented tuple, return to the signed tuple, repeat, or keep the presented data and replace one signature (by an outsider, by another member, random bytes, two signatures swapped, one bit flipped); oracle per step: the same reference predicate, independent of the steps before; non-trivial (sequences) = an accepted message is followed by one that differs in one field, or the reverse, or an accepted message is followed by the same data with a forged signature")
 	ctx := context.Background()
 	runRapid(t, N(500, 100000), func(rt *rapid.T) {
 		var c0 c06Case
@@ -695,12 +695,64 @@ func TestC06_Sequences(t *testing.T) {
 		cur := c0
 		var desc []string
 		prevWant, prevTuple := false, sigTuple{}
-		nontrivial := false
+		nontrivial, forged := false, false
 		for k := 0; k < steps; k++ {
 			kind := "first"
 			if k > 0 {
-				kind = rapid.SampledFrom([]string{"one-field", "one-field", "one-field", "back-to-signed", "back-to-signed", "repeat"}).Draw(rt, fmt.Sprintf("follow%d", k))
+				kind = rapid.SampledFrom([]string{"one-field", "one-field", "one-field", "back-to-signed", "back-to-signed", "repeat", "forge-signature", "forge-signature"}).Draw(rt, fmt.Sprintf("follow%d", k))
+				if kind == "forge-signature" && len(cur.Sigs) == 0 {
+					kind = "repeat"
+				}
 				switch kind {
+				case "forge-signature":
+					// same presented data and signer list, one signature replaced: what was verified for this
+					// data before must not vouch for other signature bytes
+					cur.Sigs = append([][]byte{}, cur.Sigs...)
+					cur.SigSpecs = append([]sigSpec{}, cur.SigSpecs...)
+					pos := rapid.IntRange(0, len(cur.Sigs)-1).Draw(rt, fmt.Sprintf("forgePos%d", k))
+					how := rapid.SampledFrom([]string{"outsider", "other-member", "random", "swap", "flip-byte"}).Draw(rt, fmt.Sprintf("forgeHow%d", k))
+					if how == "swap" && len(cur.Sigs) < 2 {
+						how = "outsider"
+					}
+					if how == "other-member" && cur.N < 2 {
+						how = "outsider"
+					}
+					switch how {
+					case "outsider", "other-member":
+						signer := outsiderKeyIdx
+						if how == "other-member" {
+							signer = rapid.IntRange(0, cur.N-1).Draw(rt, fmt.Sprintf("forgeBy%d", k))
+							if pos < len(cur.Signers) && uint64(signer) == cur.Signers[pos] {
+								signer = (signer + 1) % cur.N
+							}
+						}
+						tt := cur.Presented.clone()
+						sig := signTuple(cur.Gnosis, tt, cur.keyOf(signer))
+						spec := sigSpec{Kind: how, Signer: signer, Tuple: &tt}
+						if sig == nil {
+							sig, spec = make([]byte, 65), sigSpec{Kind: how + ":unsignable", Signer: -1}
+						}
+						cur.Sigs[pos], cur.SigSpecs[pos] = sig, spec
+					case "random":
+						sig := rapid.SliceOfN(rapid.Byte(), 65, 65).Draw(rt, fmt.Sprintf("forgeRnd%d", k))
+						sig[64] &= 1
+						cur.Sigs[pos], cur.SigSpecs[pos] = sig, sigSpec{Kind: "random", Signer: -1}
+					case "swap":
+						q := (pos + 1) % len(cur.Sigs)
+						cur.Sigs[pos], cur.Sigs[q] = cur.Sigs[q], cur.Sigs[pos]
+						cur.SigSpecs[pos], cur.SigSpecs[q] = cur.SigSpecs[q], cur.SigSpecs[pos]
+					case "flip-byte":
+						sig := append([]byte{}, cur.Sigs[pos]...)
+						if len(sig) > 0 {
+							at := rapid.IntRange(0, len(sig)-1).Draw(rt, fmt.Sprintf("forgeAt%d", k))
+							if at == 64 {
+								at = 63
+							}
+							sig[at] ^= byte(1 << uint(rapid.IntRange(0, 7).Draw(rt, fmt.Sprintf("forgeBit%d", k))))
+						}
+						cur.Sigs[pos], cur.SigSpecs[pos] = sig, sigSpec{Kind: "flipped", Signer: -1}
+					}
+					kind += ":" + how
 				case "one-field":
 					var f string
 					cur.Presented, f = mutateTuple(rt, fmt.Sprintf("f%d", k), cur.Presented, cur.Gnosis, idLen)
@@ -760,12 +812,19 @@ func TestC06_Sequences(t *testing.T) {
 			if k > 0 && want != prevWant && !cur.Presented.equal(prevTuple, cur.Gnosis) {
 				nontrivial = true
 			}
+			if k > 0 && strings.HasPrefix(kind, "forge-signature") && prevWant && !want {
+				nontrivial = true
+				forged = true
+			}
 			prevWant, prevTuple = want, cur.Presented.clone()
 			desc = append(desc, fmt.Sprintf("%s=%v", kind, want))
 		}
 		labels := []string{"sequence"}
 		if nontrivial {
 			labels = append(labels, "sequence:verdict-flips-with-same-signatures")
+		}
+		if forged {
+			labels = append(labels, "sequence:accepted-message-then-same-data-with-a-forged-signature")
 		}
 		if node != nil {
 			labels = append(labels, "sequence:keyper-chain")
